@@ -115,6 +115,25 @@ def gen(rng, tier, algo, tt, n):
     return cases
 
 
+def extra_requests(c):
+    """driver requests besides the byte-level model runs: scope (`rawdet`, `cert productive`), the hypotheses of
+    C12_error_at_first_offending_token on the real table (`cert c01`, `cert viable`), and the token-level parser
+    `tparse` (the machine the valid-prefix theorems are about) on the tokens of every input"""
+    kinds = {t: i + 1 for i, t in enumerate(c.gram.terms)}
+    unknown = len(kinds) + 1          # = nterms: the "unknown token" no cell accepts (Model/LexTok.lean charToTerm)
+    rq = ["rawdet", "cert productive", "cert c01", "cert viable", "cert singlechar"]
+    for (_, _, _, meta) in c.inputs:
+        rq.append("tlr " + (",".join(str(kinds.get(t, unknown)) for t in meta["toks"]) or "-"))
+    # hypothesis CharEnv of the byte-level theorem (C12_bytes_error_at_first_offending_token) per input: the real
+    # recognizers' match matrix is `charRecog` and whitespace skipping has nothing to skip
+    for (_, _, inp, _), mat in zip(c.inputs, c.matrices):
+        rq.append(f"charenv {lf.hx(inp)} #{mat}")
+    return rq
+
+
+N_FIXED_EXTRA = 5
+
+
 def run(rep, tier, seed):
     rng = random.Random(seed)
     proofs_ok = lean_obligations(rep, PROP_MODULE)
@@ -129,20 +148,79 @@ def run(rep, tier, seed):
     for c in glr:
         c.max_trees = 1
     lf.add_histories(rng, lr)
-    lf.run_cases(lr, extra_requests=lambda c: ["rawdet"])
+    lf.run_cases(lr, extra_requests=extra_requests)
     lf.add_histories(rng, glr)
     lf.run_cases(glr, model=False)
+    # GLR counting solutions of a highly ambiguous input can exceed the 3 s watchdog without hanging
+    rep.counters["glr_timeouts_that_were_only_slow"] = lf.confirm_timeouts(glr)
     check(rep, lr, glr, proofs_ok)
+
+
+def wired(c):
+    """False while the driver binary predates the dispatch lines `cert productive|viable|singlechar`, `charenv`
+    (it answers bad-request): the new certificate checks are then skipped and counted, everything else runs as before"""
+    return "bad-request" not in (c.extra[1], c.extra[3], c.extra[4])
+
+
+def in_scope_quiet(c):
+    return (c.extra[0] == "1" and tp.parse_dump(c.dump)["conflicts"] == 0 and
+            (c.extra[1] == "1" or not wired(c)))
 
 
 def check(rep, lr, glr, proofs_ok):
     rep.cov["rule"] = ("random reduced acyclic BNF grammars; LR: {LALR, LALR_PAGER}, in scope iff Lean rawDeterministic holds of the "
-                       "dumped items (C01 scope); GLR: acyclic, no ambiguous empty derivation (C03 scope); inputs: all strings up to "
+                       "dumped items (C01 scope) and Cert.productive of the dumped grammar; certC12 = cert c01 + cert viable executed on "
+                       "every in-scope table; tparse run on the tokens of every input next to the oracle; GLR: acyclic, no ambiguous empty derivation (C03 scope); inputs: all strings up to "
                        "length 3, sentences, mutations, truncations, a foreign character inserted, each without and with "
                        "whitespace/newline/CRLF between tokens; expected position from an independent Earley viable-prefix oracle; "
                        "distinct = (grammar, settings, input)")
-    lf.evaluate(rep, lr, oracle, proofs_ok, PROP_MODULE,
-                in_scope=lambda c: c.extra[0] == "1" and tp.parse_dump(c.dump)["conflicts"] == 0)
+    def in_scope(c):
+        if not (c.extra[0] == "1" and tp.parse_dump(c.dump)["conflicts"] == 0):
+            return False
+        if wired(c) and c.extra[1] != "1":
+            # Cert.productive fails: a symbol derives no terminal string (F10 class) - outside the valid-prefix theorems
+            rep.count("out_of_scope:unproductive(Cert.productive=0)")
+            return False
+        return True
+    failures, corr_breaks = lf.evaluate(rep, lr, oracle, proofs_ok, PROP_MODULE, in_scope=in_scope)
+    # hypotheses of C12_error_at_first_offending_token (certC12) on every in-scope real table, and tparse next to the oracle
+    cert_fail, tlr_breaks = [], []
+    for c in lr:
+        if c.dump is None or not in_scope_quiet(c):
+            continue
+        if not wired(c):
+            rep.count("certC12_not_evaluated(driver without `cert viable`)")
+            continue
+        ok = c.extra[2] == "1" and "=0" not in c.extra[3]
+        rep.count("certC12_" + ("pass" if ok else "FAIL:c01=" + c.extra[2] + " " + c.extra[3]))
+        if not ok:
+            cert_fail.append(c)
+        n = len(c.inputs)
+        rep.count("singlechar_" + ("pass" if c.extra[4] == "1" else "FAIL"))
+        for (_, _, inp, _), ce in zip(c.inputs, c.extra[N_FIXED_EXTRA + n:N_FIXED_EXTRA + 2 * n]):
+            has_ws = any(ch.isspace() for ch in inp)
+            rep.count("byte_level_theorem_" + ("applies" if ce == "1" and c.extra[4] == "1" else
+                                                "not_applicable:whitespace_in_input" if has_ws else "HYPOTHESIS_FAILS"))
+        for k, ((_, _, _, meta), tl) in enumerate(zip(c.inputs, c.extra[N_FIXED_EXTRA:N_FIXED_EXTRA + n])):
+            exp = meta["expect"]
+            want = "accept" if exp is None else f"error {exp}"
+            rep.count("tlr_compared")
+            if tl != want:
+                tlr_breaks.append((c, k, tl, want))
+    rep.counters["certificate_failures"] = len(cert_fail)
+    rep.counters["tlr_breaks"] = len(tlr_breaks)
+    if not failures and not corr_breaks:
+        if cert_fail:
+            c = min(cert_fail, key=lambda c: len(c.text))
+            rep.violation(dict(c.describe(), why="certC12 (Cert.structural/complete/acceptStop + Cert.viable) fails on the "
+                               "compiler's table: hypotheses of C12_error_at_first_offending_token not met: c01=" + c.extra[2] +
+                               " " + c.extra[3] + " -- the oracle found no input with a misplaced error",
+                               kind="certificate", n_failures=len(cert_fail)), no_input=True)
+        elif tlr_breaks:
+            c, k, tl, want = min(tlr_breaks, key=lambda f: (len(f[0].text), len(f[0].inputs[f[1]][2])))
+            rep.violation(dict(c.describe(k), why=f"token-level model tparse answers '{tl}', the viable-prefix oracle says "
+                               f"'{want}' (the real parser agrees with the oracle)", kind="impl!=model",
+                               n_breaks=len(tlr_breaks)), no_input=True)
     lf.evaluate(rep, glr, oracle, True, PROP_MODULE, compare_model=False)
     for c in lr + glr:
         for (_, _, _, m) in c.inputs:
@@ -174,5 +252,5 @@ def replay(rep, path):
         lf.run_cases([c], model=False)
         check(rep, [], [c], True)
     else:
-        lf.run_cases([c], extra_requests=lambda c: ["rawdet"])
+        lf.run_cases([c], extra_requests=extra_requests)
         check(rep, [c], [], True)
